@@ -3,6 +3,7 @@ import EaselModel.Random.Model
 import EaselModel.Random.Choose
 import EaselModel.Random.Deal64
 import EaselModel.Random.Samplers
+import EaselModel.Random.Dump
 import EaselModel.Generated.RandTables
 /-! Line-protocol driver for the C09 model. -/
 open EaselModel EaselModel.Proto EaselModel.Random EaselModel.MTP
@@ -10,6 +11,7 @@ open EaselModel EaselModel.Proto EaselModel.Random EaselModel.MTP
 structure S where
   r : Rng := default
   r64 : Rng64 := default
+  env : Option Env := none      -- `env t= p= c=`: what time(), getpid(), clock() answer for the rest of the case
 
 def fnv (h : UInt64) (x : UInt64) : UInt64 := (h ^^^ x) * (0x100000001b3 : UInt64)
 
@@ -74,24 +76,57 @@ def sres {α : Type} (s : S) (r : SRes (α × Rng)) (pr : α → String) : S × 
   | .nofuel => (s, "nohalt")
   | .fault => (s, "fault")
 
+/-- the answer of a `Dump` op: length, number of lines and FNV-1a hash of the text -/
+def dumpAnswer (t : Option String) : String :=
+  match t with
+  | none => "fault"
+  | some txt =>
+    let bs := txt.toUTF8
+    let h := bs.foldl (fun h b => fnv h b.toUInt64) (0xcbf29ce484222325 : UInt64)
+    let nl := bs.foldl (fun n b => if b = 10 then n + 1 else n) 0
+    s!"ok len={bs.size} lines={nl} h={hex64 h}"
+
+/-- seed 0 is driven only under a controlled environment (`env` op) -/
+def withSeed (s : S) (sd : Nat) (f : Env → S × String) : S × String :=
+  match s.env with
+  | some e => f e
+  | none => if sd = 0 then (s, "bad-op") else f (0, 0, 0)
+
 def step (s : S) (line : String) : S × String :=
   let ws := words line
   match ws with
+  | "env" :: _ =>
+    ({ s with env := some (UInt32.ofNat ((argNat? ws "t").getD 0), UInt32.ofNat ((argNat? ws "p").getD 0),
+                           UInt32.ofNat ((argNat? ws "c").getD 0)) }, "ok")
   | "new32" :: _ =>
     match argNat? ws "seed" with
-    | some sd => if sd = 0 then (s, "bad-op") else
-        let r := Rng.create .mersenne (UInt32.ofNat sd); ({ s with r := r }, s!"ok seed={r.seed}")
+    | some sd => withSeed s sd fun e =>
+        let r := Rng.createEnv .mersenne (UInt32.ofNat sd) e; ({ s with r := r }, s!"ok seed={r.seed}")
     | none => (s, "bad-op")
   | "newfast" :: _ =>
     match argNat? ws "seed" with
-    | some sd => if sd = 0 then (s, "bad-op") else
-        let r := Rng.create .fast (UInt32.ofNat sd); ({ s with r := r }, s!"ok seed={r.seed}")
+    | some sd => withSeed s sd fun e =>
+        let r := Rng.createEnv .fast (UInt32.ofNat sd) e; ({ s with r := r }, s!"ok seed={r.seed}")
     | none => (s, "bad-op")
+  | "newtime" :: _ =>
+    withSeed s 0 fun e => let r := Rng.createTimeseeded e; ({ s with r := r }, s!"ok seed={r.seed}")
   | "init" :: _ =>
     match argNat? ws "seed" with
-    | some sd => if sd = 0 then (s, "bad-op") else
-        let r := s.r.initWith (UInt32.ofNat sd); ({ s with r := r }, s!"ok seed={r.seed}")
+    | some sd => withSeed s sd fun e =>
+        let r := s.r.initEnv (UInt32.ofNat sd) e; ({ s with r := r }, s!"ok seed={r.seed}")
     | none => (s, "bad-op")
+  | "init64" :: _ =>
+    match argNat? ws "seed" with
+    | some sd => withSeed s sd fun e =>
+        let r := s.r64.initEnv (UInt64.ofNat sd) e; ({ s with r64 := r }, s!"ok seed={r.seed}")
+    | none => (s, "bad-op")
+  | "dump32" :: _ => (s, dumpAnswer s.r.dump)
+  | "dump64" :: _ => (s, dumpAnswer s.r64.dump)
+  | "pos32" :: _ =>
+    match s.r.kind with
+    | .mersenne => (s, s!"ok mti={s.r.st.mti}")
+    | .fast => (s, s!"ok x={s.r.x}")
+  | "pos64" :: _ => (s, s!"ok mti={s.r64.st.mti}")
   | "seedzero32" :: _ => (s, "ok nonzero replay")     -- Props.C09.seed0_nonzero32 + reinit_replays
   | "seedzero64" :: _ => (s, "ok nonzero replay")
   | "u32" :: _ =>
@@ -152,8 +187,8 @@ def step (s : S) (line : String) : S × String :=
     | none => ({ s with r := r }, "fatal")
   | "new64" :: _ =>
     match argNat? ws "seed" with
-    | some sd => if sd = 0 then (s, "bad-op") else
-        let r := Rng64.create (UInt64.ofNat sd); ({ s with r64 := r }, s!"ok seed={r.seed}")
+    | some sd => withSeed s sd fun e =>
+        let r := Rng64.createEnv (UInt64.ofNat sd) e; ({ s with r64 := r }, s!"ok seed={r.seed}")
     | none => (s, "bad-op")
   | "u64" :: _ =>
     let k := (argNat? ws "k").getD 1
